@@ -39,17 +39,18 @@ def k_of(v):
     return den.bit_length() - 1
 
 
-def zgeom(g, K):
-    """prefix form for the driver, ordinates multiplied by 2^K (exact integers)"""
+def zgeom(g, K, off=(0, 0)):
+    """prefix form for the driver: ordinates multiplied by 2^K (exact integers) and translated by -off (integers, in scaled units)"""
     t, d = g
-    z = lambda v: str(int(Fraction(float(v)) * (1 << K)))
+    zx = lambda v: str(int(Fraction(float(v)) * (1 << K)) - off[0])
+    zy = lambda v: str(int(Fraction(float(v)) * (1 << K)) - off[1])
     if t == 'Point':
-        return 'PE' if d is None else 'P %s %s' % (z(d[0]), z(d[1]))
+        return 'PE' if d is None else 'P %s %s' % (zx(d[0]), zy(d[1]))
     if t == 'LineString':
-        return 'L %d %s' % (len(d), ' '.join('%s %s' % (z(x), z(y)) for x, y in d))
+        return 'L %d %s' % (len(d), ' '.join('%s %s' % (zx(x), zy(y)) for x, y in d))
     if t == 'Polygon':
-        return 'A %d %s' % (len(d), ' '.join('%d %s' % (len(r), ' '.join('%s %s' % (z(x), z(y)) for x, y in r)) for r in d))
-    return 'C %d %s' % (len(d), ' '.join(zgeom(x, K) for x in d))
+        return 'A %d %s' % (len(d), ' '.join('%d %s' % (len(r), ' '.join('%s %s' % (zx(x), zy(y)) for x, y in r)) for r in d))
+    return 'C %d %s' % (len(d), ' '.join(zgeom(x, K, off) for x in d))
 
 
 def unhex(s):
@@ -154,11 +155,11 @@ def gen_pair(rng, quick):
         A = G.gen_geom(rng, R); B = G.gen_geom(rng, R); tag = 'random'
     elif k < 0.42:
         A = G.gen_geom(rng, R); B = G.derive(rng, A, R); tag = 'derived'
-    elif k < 0.52:
+    elif k < 0.54:
         A = G.gen_geom(rng, R); B = G.gen_geom(rng, R)
         dx, dy = rng.choice([(1, 0), (0, 1), (1, 1), (-1, 2)]); s = rng.choice([3 * R, 10 * R, 1000 * R])
         B = G.map_coords(B, lambda p: (p[0] + dx * s, p[1] + dy * s)); tag = 'far'
-    elif k < 0.66:
+    elif k < 0.70:
         # containment: something strictly inside a polygon's interior, or inside its hole
         W = rng.randint(8, 40); Hh = rng.randint(8, 40)
         rings = [G.rect_ring(0, 0, 3 * W, 3 * Hh)]
@@ -190,7 +191,7 @@ def gen_pair(rng, quick):
         B = inner; tag = 'contain-' + where
         if rng.random() < 0.5:
             A, B = B, A
-    elif k < 0.76:
+    elif k < 0.80:
         # collinear / parallel segments: overlap, touching ends, gap, shifted
         ux, uy = rng.choice([(1, 0), (0, 1), (1, 1), (2, 1), (3, -2), (5, 7)])
         a0 = rng.randint(-5, 5); a1 = a0 + rng.randint(1, 8)
@@ -202,7 +203,7 @@ def gen_pair(rng, quick):
         if rng.random() < 0.3:
             B = ('Point', B[1][0])
         tag = 'collinear' if sh == 0 else 'parallel'
-    elif k < 0.86:
+    elif k < 0.92:
         # T-junctions and near misses: a vertex of B on (or one grid step off) the interior of a segment of A
         A = G.gen_line(rng, R, n=rng.randint(2, 4)) if rng.random() < 0.6 else G.gen_polygon(rng, R)
         pts = G.all_points(A)
@@ -216,8 +217,19 @@ def gen_pair(rng, quick):
         far = (t[0] + rng.randint(-40, 40), t[1] + rng.randint(-40, 40))
         B = rng.choice([('Point', t), ('LineString', [t, far]), ('LineString', [far, t, (far[0] + 7, far[1] - 3)])])
         tag = 'tjunction' if off == (0, 0) else 'nearmiss'
+    elif k < 0.96:
+        # many small components: one facet sequence each, so the packed R-trees of IndexedFacetDistance / MinimumClearance get
+        # two or three levels while the oracle stays cheap
+        def many(cx, cy):
+            m = rng.randint(11, 45); S = rng.choice([30, 100, 400])
+            if rng.random() < 0.5:
+                return ('MultiPoint', [('Point', (cx + rng.randint(-S, S), cy + rng.randint(-S, S))) for _ in range(m)])
+            return ('MultiLineString', [G.gen_line(rng, 4, cx + rng.randint(-S, S), cy + rng.randint(-S, S), n=rng.randint(2, 3)) for _ in range(m)])
+        A = many(0, 0)
+        B = many(rng.choice([0, 50, 300]), rng.choice([0, 40])) if rng.random() < 0.7 else G.gen_geom(rng, 30)
+        tag = 'many'
     else:
-        n = rng.randint(20, 70) if quick else rng.randint(40, 160)
+        n = rng.randint(14, 45) if quick else rng.randint(30, 100)
         mk = lambda cx, cy: (gen_big_line(rng, n, 12, cx, cy) if rng.random() < 0.6 else gen_big_poly(rng, n, 40 + n, cx, cy))
         A = mk(0, 0); B = mk(rng.choice([0, 30, 150, 400]), rng.choice([0, 20, 100]))
         tag = 'big'
@@ -331,7 +343,7 @@ def topdim(g):
 
 
 class Case:
-    __slots__ = ('idx', 'tag', 'tr', 'A', 'B', 'frac', 'n', 'impl', 'K', 'M', 'extra', 'reqs', 'model')
+    __slots__ = ('idx', 'tag', 'tr', 'A', 'B', 'frac', 'n', 'impl', 'K', 'K0', 'M', 'extra', 'reqs', 'reqs2', 'model', 'model2')
 
 
 def mk_case(idx, tag, tr, A, B, rng):
@@ -349,9 +361,11 @@ def harness_line(c, skip=''):
 PT_KEYS = ['np_ab', 'np_ba', 'pnp_ab', 'pnp_ba']
 
 
-def driver_line(c):
-    """needs c.impl; collects the returned nearest points as extra points"""
-    vals = [v for p in G.all_points(c.A) + G.all_points(c.B) for v in p]
+def driver_lines(c):
+    """needs c.impl. Two lines: the distances of the pair at the scale of its own ordinates (K0), and the checks of the returned
+    nearest points (extra points) at the finer scale K their ordinates need. Both lines are translated by the lower left corner."""
+    pts = G.all_points(c.A) + G.all_points(c.B)
+    vals = [v for p in pts for v in p]
     extra = []; c.extra = {}
     for key in PT_KEYS:
         s = c.impl.get(key)
@@ -360,21 +374,28 @@ def driver_line(c):
             if all(math.isfinite(x) for x in xs):
                 c.extra[key] = len(extra)
                 extra += [(xs[0], xs[1]), (xs[2], xs[3])]
-    vals += [v for p in extra for v in p]
-    c.K = max([k_of(v) for v in vals] + [0])
-    c.M = max([abs(float(v)) for p in G.all_points(c.A) + G.all_points(c.B) for v in p] + [1e-300])
-    big = c.tag.startswith('big')
-    reqs = ['D', 'DT', 'F', 'MA', 'MB', 'H 1', 'R 1']
+    c.K0 = max([k_of(v) for v in vals] + [0])
+    c.K = max([k_of(v) for p in extra for v in p] + [c.K0])
+    c.M = max([abs(float(v)) for v in vals] + [1e-300])
+    nfac = lambda g: sum(max(1, len(a[1]) - 1) if a[0] == 'LineString' else (sum(max(1, len(r) - 1) for r in a[1]) if a[0] == 'Polygon' else 1)
+                         for a in G.atoms(g) if not G.is_empty(a))
+    reqs = ['FD'] + (['DT'] if nfac(c.A) * nfac(c.B) <= 600 else []) + ['MA', 'MB', 'H 1', 'R 1']
     if c.n != 1:
         reqs += ['H %d' % c.n, 'R %d' % c.n]
+    reqs2 = []
     for key in PT_KEYS:
         if key in c.extra:
             i = c.extra[key]
             first_on_a = key.endswith('_ab')
-            reqs += ['NA %d' % i if first_on_a else 'NB %d' % i, 'NB %d' % (i + 1) if first_on_a else 'NA %d' % (i + 1), 'PP %d %d' % (i, i + 1)]
-    c.reqs = reqs
-    z = lambda v: str(int(Fraction(float(v)) * (1 << c.K)))
-    return '%s | %s | %s | %s' % (' '.join(reqs), zgeom(c.A, c.K), zgeom(c.B, c.K), ' '.join('%s %s' % (z(x), z(y)) for x, y in extra))
+            reqs2 += ['NA %d' % i if first_on_a else 'NB %d' % i, 'NB %d' % (i + 1) if first_on_a else 'NA %d' % (i + 1), 'PP %d %d' % (i, i + 1)]
+    c.reqs = reqs; c.reqs2 = reqs2
+    out = []
+    for K, rq, ex in ((c.K0, reqs, []), (c.K, reqs2, extra)):
+        sc = lambda v: int(Fraction(float(v)) * (1 << K))
+        off = (min(sc(p[0]) for p in pts), min(sc(p[1]) for p in pts))
+        out.append('%s | %s | %s | %s' % (' '.join(rq), zgeom(c.A, K, off), zgeom(c.B, K, off),
+                                        ' '.join('%d %d' % (sc(x) - off[0], sc(y) - off[1]) for x, y in ex)))
+    return out
 
 
 def evaluate(c):
@@ -382,13 +403,20 @@ def evaluate(c):
     res = []
     if c.model is None or c.model.startswith(('ERR', 'CRASH', 'TIMEOUT', '?')):
         return [('model', 'viol', 'the oracle did not answer: %s' % str(c.model)[:200])]
-    mt = c.model.split(' ')
+    if c.reqs2 and (c.model2 is None or c.model2.startswith(('ERR', 'CRASH', 'TIMEOUT', '?'))):
+        return [('model', 'viol', 'the oracle did not answer: %s' % str(c.model2)[:200])]
     m = {}
-    it = iter(mt)
+    it = iter(c.model.split(' '))
     for r in c.reqs:
+        if r == 'FD':
+            m['F'] = next(it, 'none'); m['D'] = next(it, 'none')
+        else:
+            m[r] = next(it, 'none')
+    it = iter((c.model2 or '').split(' '))
+    for r in c.reqs2:
         m[r] = next(it, 'none')
-    K = c.K
-    D = rat(m['D'], K); DT = rat(m['DT'], K); Fc = rat(m['F'], K)
+    K = c.K0
+    D = rat(m['D'], K); DT = rat(m['DT'], K) if 'DT' in m else D; Fc = rat(m['F'], K)
     tau = Fraction(ROUND_C) * Fraction(c.M) / (1 << 52)
     if D != DT:
         res.append(('model-symmetry', 'viol', 'oracle dist2 A B = %s but dist2 B A = %s' % (D, DT)))
@@ -431,9 +459,9 @@ def evaluate(c):
             res.append(('nearest-' + key, 'viol', '%s returned %s for non-empty inputs' % (key, s))); continue
         first_on_a = key.endswith('_ab')
         i = c.extra[key]
-        on0 = rat(m['NA %d' % i if first_on_a else 'NB %d' % i], K)
-        on1 = rat(m['NB %d' % (i + 1) if first_on_a else 'NA %d' % (i + 1)], K)
-        pp = rat(m['PP %d %d' % (i, i + 1)], K)
+        on0 = rat(m['NA %d' % i if first_on_a else 'NB %d' % i], c.K)
+        on1 = rat(m['NB %d' % (i + 1) if first_on_a else 'NA %d' % (i + 1)], c.K)
+        pp = rat(m['PP %d %d' % (i, i + 1)], c.K)
         vkey = {'np_ab': 'd_ab', 'np_ba': 'd_ba', 'pnp_ab': 'p_ab', 'pnp_ba': 'p_ba'}[key]
         bad = []
         for o_ in (on0, on1):
@@ -550,12 +578,19 @@ def run_cases(ctx, hexe, drv, cases, timeout=900):
             if o and not o.startswith(('CRASH', 'TIMEOUT')) and 'BADWKB' not in o:
                 raw = c.impl['_raw']; c.impl = parse_impl(o); c.impl['_crash_pnp'] = raw
     todo = [c for c in cases if '_raw' not in c.impl]
-    model = par_lines(ctx, [drv], [driver_line(c) for c in todo], timeout) if drv else [None] * len(todo)
-    for c, o in zip(todo, model):
-        c.model = o
+    lines = []
+    for c in todo:
+        l1, l2 = driver_lines(c)
+        lines.append(l1)
+        if c.reqs2:
+            lines.append(l2)
+    model = par_lines(ctx, [drv], lines, timeout) if drv else [None] * len(lines)
+    it = iter(model)
+    for c in todo:
+        c.model = next(it); c.model2 = next(it) if c.reqs2 else None
     for c in cases:
         if '_raw' in c.impl:
-            c.model = None
+            c.model = None; c.model2 = None; c.reqs2 = []
 
 
 def shrink(ctx, hexe, drv, c, clause, rng):
@@ -611,16 +646,53 @@ def shrink(ctx, hexe, drv, c, clause, rng):
     return A, B
 
 
+def sections_tie(ctx, drv):
+    """M: the facet sequence ranges of the model (DistDefs.sections, proved to cover every segment) against the ranges
+    FacetSequenceTreeBuilder really builds; and the covering property decided directly on the implementation's ranges"""
+    src = os.path.join(ROOT, 'harness/c08_sections.cpp')
+    exe = os.path.join(BUILD, 'bin', 'c08_sections')
+    if not ctx.cxx(src, exe, 'rel'):
+        return
+    ns = sorted(set(list(range(1, 80)) + [ctx.rng.randint(80, 3000) for _ in range(25)]))
+    lines = ['S %d' % n for n in ns]
+    impl = ctx.run_lines([exe], lines, timeout=120)
+    model = ctx.run_lines([drv], lines, timeout=120)
+    for n, a, b in zip(ns, impl, model):
+        ctx.count(('sections', n), n >= 8)
+        try:
+            secs = [tuple(map(int, t.split(':'))) for t in a.split()]
+        except ValueError:
+            secs = None
+        bad = None
+        if secs is None:
+            bad = 'implementation: %s' % a[:200]
+        else:
+            if any(not (0 <= s < e <= n) for s, e in secs):
+                bad = 'a range is empty or outside the sequence'
+            for k in range(n - 1):
+                if not any(s <= k and k + 1 < e for s, e in secs):
+                    bad = 'segment (%d,%d) is in no facet sequence' % (k, k + 1); break
+            if n == 1 and secs != [(0, 1)]:
+                bad = 'the single vertex is not covered'
+        if bad:
+            ctx.violation('sections_%d' % n, dict(points=n, implementation=a, model=b, why=bad, replay='echo "S %d" | %s' % (n, exe)),
+                          msg='facet sequencing of a %d-point line: %s (ranges %s)' % (n, bad, a[:200]))
+        elif a != b:
+            ctx.broken.append(dict(kind='correspondence', name='facet sequence ranges n=%d' % n, detail='model %s\nimpl  %s' % (b, a)))
+    ctx.notes['facet_sequence_sizes_checked'] = len(ns)
+
+
 def run(ctx):
     ctx.cov['rule'] = ('pairs of non-empty geometries (points, lines, polygons with holes, multi-geometries, collections with EMPTY elements) in '
                        'random / derived-touching / far / containment (interior, hole, annulus) / collinear-parallel / T-junction / near-miss / '
-                       'large (index pruning) configurations, on the integer grid, after an exact dyadic similarity (full mantissas, contacts stay exact) '
+                       'many-component and large (index pruning) configurations, on the integer grid, after an exact dyadic similarity (full mantissas, contacts stay exact) '
                        'or after an inexact affine map at several magnitudes; every entry point evaluated on each pair; non-trivial = at least one '
                        'segment on one side and the pair is not two single points; distinct by the WKB of the pair')
     ctx.assumptions += [
         'polygons are generated valid (distance between invalid areas is not defined by the property)',
         'binary64 ordinates are scaled per case by one power of two to integers (exact); the oracle works over Z and returns exact rationals',
         'the WKB reader builds the geometry it is given (C09) ; correspondence is sampled (generator quality bounds it)',
+        'the oracle is evaluated on the case translated by its lower left corner (exact integer translation; squared distances and the even-odd location are translation invariant)',
         'nearest points are accepted when within 1e-9 x the largest |ordinate| of their geometry and of realising the returned distance',
         'known finding C08-K1 accepts values outside 1e-12 relative only inside the envelope |v - d| <= %d x 2^-52 x largest |ordinate|' % ROUND_C]
     ok_build = ctx.build_repo('rel')
@@ -629,7 +701,8 @@ def run(ctx):
     hexe = os.path.join(BUILD, 'bin', 'c08')
     if not ok_build or not ctx.cxx(os.path.join(ROOT, 'harness/c08.cpp'), hexe, 'rel') or not drv:
         return
-    n = globals().get("N_OVERRIDE") or (900 if ctx.quick else 12000)
+    sections_tie(ctx, drv)
+    n = globals().get("N_OVERRIDE") or (800 if ctx.quick else 6000)
     rng = ctx.rng
     cases = []
     corpus = os.path.join(ROOT, 'gen/corpus/C08.txt')
@@ -664,7 +737,7 @@ def run(ctx):
             continue
         res = evaluate(c)
         if c.model and not c.model.startswith(('ERR', '?')):
-            if c.model.split(' ')[0] == '0/1': dist['zero_distance'] += 1
+            if c.model.split(' ')[1].startswith('0/'): dist['zero_distance'] += 1
             else: dist['positive_distance'] += 1
         for clause, st, det in res:
             ctx.count((clause, wkb(c.A), wkb(c.B)), nontriv)
@@ -700,7 +773,7 @@ def run(ctx):
     for c in cases[:4]:
         ctx.sample('%s/%s A=%s B=%s' % (c.tag, c.tr, G.to_wkt(c.A)[:150], G.to_wkt(c.B)[:150]))
     # generator self-check: every configuration class and both zero / positive distances must have been drawn
-    for need in ['random', 'derived', 'far', 'contain', 'collinear', 'parallel', 'tjunction', 'nearmiss', 'big', '+empty']:
+    for need in ['random', 'derived', 'far', 'contain', 'collinear', 'parallel', 'tjunction', 'nearmiss', 'many', 'big', '+empty']:
         if not any(need in t for t in dist['config']):
             ctx.broken.append(dict(kind='generator', name='distribution', detail='no %s configuration generated' % need))
     if dist['zero_distance'] == 0 or dist['positive_distance'] == 0:
